@@ -6,6 +6,7 @@ mod common;
 mod geom;
 mod p_dim;
 mod p_nn;
+mod p_pred;
 mod p_exact;
 mod p_struct;
 mod p_total;
